@@ -98,7 +98,7 @@ def open_table(ctx, rr):
     isfile_keys = []
     for r in rows:
         for k in r.order:
-            if 'isfile' in k and k not in isfile_keys:
+            if 'isfile' in k and k.startswith(('truthy:', 'isnone:')) and k not in isfile_keys:
                 isfile_keys.append(k)
     if len(isfile_keys) != 2:
         raise AnalysisError('R-OPEN-TABLE: expected two file-existence atoms in Traph.__init__, found %s' % isfile_keys)
@@ -108,6 +108,25 @@ def open_table(ctx, rr):
     def fail(row, ev, msg):
         node = ev.node if ev is not None else u.node
         rr.fail(ctx.finding('R-OPEN-TABLE', u, node, msg, detail={'row': row.show()[:600]}))
+    # the folder: a failing makedirs is swallowed exactly when the folder is already there (EEXIST and a directory); anything else is
+    # re-raised - otherwise an existing index cannot be reopened, or a real failure is ignored
+    hrows = [r for r in rows if any(k.startswith('exc@') and v for k, v in r.val.items())]
+    badh = None
+    for r in hrows:
+        eex = [v for k, v in r.val.items() if 'EEXIST' in k and k.startswith(('EQ:', 'ORD:'))]
+        isd = [v for k, v in r.val.items() if 'isdir' in k]
+        if not eex:
+            continue
+        eexv = eex[-1] if isinstance(eex[-1], bool) else (eex[-1] == 'EQ')
+        bare = [e for e in r.events if e.kind == 'raise' and e.name is None]
+        exists = bool(eexv) and bool(isd and isd[-1])
+        decided = (eexv is False) or bool(isd)
+        if decided and bool(bare) == exists and badh is None:
+            badh = (r, 'the failure is %s although the folder %s' % ('re-raised' if bare else 'swallowed', 'already exists as a directory' if exists else 'could not be created'))
+    if hrows:
+        rr.ob(ctx.where(u), 'a failing makedirs is swallowed exactly for an already existing directory (%d handler rows)' % len(hrows), ok=badh is None)
+        if badh is not None:
+            fail(badh[0], None, 'folder creation: ' + badh[1] + ': reopening an existing index fails with the OS error (or a real failure goes unnoticed) instead of opening it')
 
     for r in rows:
         if r.val.get('exc@80') or any(k.startswith('exc@') and v for k, v in r.val.items()):
@@ -137,6 +156,16 @@ def open_table(ctx, rr):
                 seen.add(key)
                 continue
             modes = [o.args[1] if len(o.args) > 1 else None for o in opens]
+
+            def _fold_mode(m):
+                import re as _rem
+                while isinstance(m, str):
+                    mt = _rem.match(r"^\((.+) if (True|False) else (.+)\)$", m)
+                    if not mt:
+                        break
+                    m = mt.group(1) if mt.group(2) == 'True' else mt.group(3)
+                return m
+            modes = [_fold_mode(m) for m in modes]
             if e1 and e2 and ow is None:
                 fail(r, opens[0] if opens else None, 'existing store files are opened without consulting the overwrite request')
                 seen.add(key)
@@ -280,7 +309,7 @@ def clear_agree(ctx, rr):
     for name2, fu in P.require_class('Traph').items():
         for c in P.own(fu, ast.Call):
             if ast.unparse(c.func) == 're.compile':
-                flags = tuple(ast.unparse(a) for a in c.args[1:]) + tuple('%s=%s' % (k.arg, ast.unparse(k.value)) for k in c.keywords)
+                flags = tuple(ast.unparse(a) for a in c.args[1:]) + tuple(ast.unparse(k.value) if k.arg == 'flags' else '%s=%s' % (k.arg, ast.unparse(k.value)) for k in c.keywords)
                 comp.setdefault(flags, []).append((fu, c))
     if not comp:
         raise AnalysisError('R-CLEAR-AGREE: no re.compile call found in Traph')
@@ -374,6 +403,28 @@ def clear_agree(ctx, rr):
             if not okc:
                 break
     rr.ob(ctx.where(mc), 'MemoryStorage.clear discards every block (header included), like truncating a file', ok=okc)
+    # ... and a new memory store starts as empty as a newly created file: the header ensure step writes the header only into a store
+    # that has no block 0 yet
+    mi = P.classes['MemoryStorage'].get('__init__')
+    if mi is None:
+        raise AnalysisError('anchor vanished: MemoryStorage.__init__')
+    # the attributes that hold the blocks: those clear() empties
+    block_attrs = set()
+    for a in P.own(mc, (ast.Assign, ast.Delete, ast.Call)):
+        if isinstance(a, ast.Assign):
+            block_attrs |= {ast.unparse(t) for t in a.targets if ast.unparse(t).startswith('self.') and isinstance(a.value, ast.Call)}
+        elif isinstance(a, ast.Call) and isinstance(a.func, ast.Attribute) and a.func.attr == 'clear':
+            block_attrs.add(ast.unparse(a.func.value))
+        elif isinstance(a, ast.Delete):
+            block_attrs |= {ast.unparse(t.value) for t in a.targets if isinstance(t, ast.Subscript)}
+    inits = [a for a in P.own(mi, ast.Assign) if any(ast.unparse(t) in block_attrs for t in a.targets)]
+    oki = bool(inits) and all((isinstance(a.value, ast.Call) and not a.value.args and not a.value.keywords) or (isinstance(a.value, ast.Constant) and a.value.value in (b'', ''))
+                              for a in inits)
+    rr.ob(ctx.where(mi), 'a new MemoryStorage holds no block, like a file that was just created', ok=oki)
+    if not oki:
+        rr.fail(ctx.finding('R-CLEAR-AGREE', mi, inits[0] if inits else mi.node, 'MemoryStorage starts with `%s` instead of an empty array: the header ensure step finds block 0 present and '
+                            'never writes the real header, so an in-memory index differs from a fresh on-disk one (version stamp, header bytes) until the first clear()'
+                            % (ast.unparse(inits[0].value)[:40] if inits else '?'), stmt='memory init'))
     if not okc:
         rr.fail(ctx.finding('R-CLEAR-AGREE', mc, mc.node, 'MemoryStorage.clear does not discard the whole store: after Traph.clear() the in-memory index keeps old blocks '
                             '(e.g. the header with its webentity-id counter) while a cleared file index starts empty', stmt='MemoryStorage.clear'))
